@@ -630,7 +630,7 @@ struct W2
         if (N != M)
           break;
         if (act_d != ps.values || act_s != pd.values)
-          report (p1, "model.contents", "after swap contents are " + ints_to_string (act_d) + " / "
+          report (op.kind == OP2_SWAP_NM ? "C16,C01" : p1, "model.contents", "after swap contents are " + ints_to_string (act_d) + " / "
                   + ints_to_string (act_s) + ", expected " + ints_to_string (ps.values) + " / "
                   + ints_to_string (pd.values));
         if (! AT::is_std)
@@ -941,7 +941,7 @@ struct W2
           {
             if (opt.fault_kinds == 1 && r0.kinds[k] != FK_ALLOC)
               continue;
-            Op f = op; f.f1 = static_cast<short> (k);
+            Op f = op; f.f1 = k;
             TrialResult r1 = run_trial (cur.hist, f, &cur.shape, r0.kinds[k]);
             if (harness_error) return;
             if (r1.skipped) continue;
@@ -953,7 +953,7 @@ struct W2
             const int F2 = r1.fault_points < 255 ? r1.fault_points : 255;
             for (int k2 = k + 1; k2 <= F2 && ! time_up (); ++k2)
             {
-              Op g = f; g.f2 = static_cast<short> (k2);
+              Op g = f; g.f2 = k2;
               TrialResult r2 = run_trial (cur.hist, g, &cur.shape, r0.kinds[k]);
               if (harness_error) return;
               if (r2.skipped) continue;
